@@ -165,7 +165,9 @@ def check_algebra(op, specs, args, stats, enum=False):
             inner_view = views[1]
             pos = [n for n, k, d in inner_view if k in (PO, POK)]
             fl = args.get('flags', {})
-            masked |= set(pos[:args.get('n', 0)]) | set(args.get('names', ()))
+            # (a name consumes the inner parameter it can be passed to by keyword; spelled like a positional-only one it
+            # ends up in **kwargs and that parameter stays)
+            masked |= set(pos[:args.get('n', 0)]) | set(x for x in args.get('names', ()) if any(n == x and k in (POK, KWO) for n, k, d in inner_view))
         for n, p in r.parameters.items():
             if p.kind in (p.VAR_POSITIONAL, p.VAR_KEYWORD):
                 continue
